@@ -3,6 +3,7 @@ package a15
 import (
 	"fmt"
 	"io"
+	"log"
 	"net/http"
 	"net/http/httptest"
 	"strings"
@@ -31,16 +32,22 @@ type Target struct {
 	log    []Arrival
 	script Script
 	srv    *httptest.Server
+	tls    *httptest.Server // the same handler and log behind TLS with HTTP/2 (for the http2/scenario gun)
 }
 
 func NewTarget() *Target {
 	t := &Target{script: Script{}}
 	t.srv = httptest.NewServer(http.HandlerFunc(t.handle))
+	t.tls = httptest.NewUnstartedServer(http.HandlerFunc(t.handle))
+	t.tls.EnableHTTP2 = true
+	t.tls.Config.ErrorLog = log.New(io.Discard, "", 0)
+	t.tls.StartTLS()
 	return t
 }
 
 func (t *Target) Addr() string { return strings.TrimPrefix(t.srv.URL, "http://") }
-func (t *Target) Close()       { t.srv.Close() }
+func (t *Target) AddrTLS() string { return strings.TrimPrefix(t.tls.URL, "https://") }
+func (t *Target) Close()       { t.srv.Close(); t.tls.Close() }
 
 // Reset starts a new case.
 func (t *Target) Reset(s Script) {
